@@ -158,7 +158,7 @@ func runC06(c *Ctx) error {
 	// ---- caps around the protocol limit on chains that need several full replies ----
 	longs := []struct{ n, cp int }{{2100, 2000}, {700, 300}}
 	if c.Thorough() {
-		longs = append(longs, []struct{ n, cp int }{{4100, 2000}, {2000, 2000}, {2001, 2000}, {2100, 1999}, {1500, 1}}...)
+		longs = append(longs, []struct{ n, cp int }{{4100, 2000}, {2000, 2000}, {2001, 2000}, {2100, 1999}, {400, 1}}...)
 	}
 	for _, eng := range engines {
 		for li, lg := range longs {
@@ -345,7 +345,7 @@ func runC06(c *Ctx) error {
 	}
 
 	// ---- random mixtures ----
-	nr := c.Pick(250, 4000)
+	nr := c.Pick(250, 2500)
 	for i := 0; i < nr; i++ {
 		r := c.Rng
 		eng := engines[r.Intn(3)%2]
